@@ -17,15 +17,15 @@ def lattice_loops(ctx, rnd):
     runs = [(1, 9, 5)] if q else [(1, 13, 5), (1, 26, 4), (1, 12, 5)]
     for n, k, maxlen in runs:
         sub = set(rnd.sample(range(1, 27), k))
-        r = ctx.tlc("Gen_InLoop", vlib.cfg(constants={"N": n, "SubIdx": sub, "ProbeIdx": allp, "MaxLen": maxlen},
-                                             invariants=INLOOP_INV), workers=12, timeout=2400, heap="8g")
+        r = ctx.tlc("Gen_InLoop", vlib.cfg(constants={"N": n, "SubIdx": sub, "ProbeIdx": allp, "MaxLen": maxlen, "Op": '"c04loop"', "NQ": 0},
+                                             invariants=INLOOP_INV), workers=12, timeout=2400, heap="4g" if q else "8g")
         cases += r.tagged.get("CASE", [])
     # N = 2: 98 primitive directions; sub-lattices
     for _ in range(1 if q else 4):
         sub = set(rnd.sample(range(1, 99), 7 if q else 11))
         probes = sub | set(rnd.sample(range(1, 99), 40))
-        r = ctx.tlc("Gen_InLoop", vlib.cfg(constants={"N": 2, "SubIdx": sub, "ProbeIdx": probes, "MaxLen": 4 if q else 5},
-                                             invariants=INLOOP_INV), workers=12, timeout=2400, heap="8g")
+        r = ctx.tlc("Gen_InLoop", vlib.cfg(constants={"N": 2, "SubIdx": sub, "ProbeIdx": probes, "MaxLen": 4 if q else 5, "Op": '"c04loop"', "NQ": 0},
+                                             invariants=INLOOP_INV), workers=12, timeout=2400, heap="4g" if q else "8g")
         cases += r.tagged.get("CASE", [])
     if q and len(cases) > 2500:
         cases = rnd.sample(cases, 2500)
